@@ -57,7 +57,9 @@ package protocol
 //@ lemma envelopeRoundTrip serves C14: forall b []byte, t msgType, t2 msgType :: (len(b) >= 8 && hasMagic(b) && b[4] == 0 && b[5] == 8 && b[6] == 0 && b[7] == byte(t)) ==> (wellFormed(b, t) && !crcFlag(b) && (t2 != t ==> !wellFormed(b, t2)))
 
 //@ func UnmarshalPublish serves C14
+//@   returns (msg, err)
 //@   safety
+//@   ensures [always-a-message-object] msg != nil
 //@ func UnmarshalAck serves C14
 //@   safety
 //@ func UnmarshalServerInfoRequest serves C14
